@@ -404,7 +404,8 @@ func (n *Tree[V]) findNode(path string, captures []string, matcher LookupMatcher
 			}
 		}
 
-		return nil, 0, captures, n.backtrackingEnabled
+		// whether a less specific expression may be tried is defined by the catchall node
+		return nil, 0, captures, n.catchAllChild.backtrackingEnabled
 	}
 
 	return nil, 0, captures, true
